@@ -62,6 +62,13 @@ def eval_case(arg):
         proj = histrun.Project(root)
         st = copy.deepcopy(st0)
         project.apply_edit(st, ops[0])
+        # one module that imports a flat module also imports a module that exists nowhere (a persistent
+        # import-not-found error); in the last phase one of its real dependencies is deleted without editing it
+        rnd_m = random.Random(seed + 7)
+        holders = sorted(m for m, mm in st["mods"].items() if any("." not in d and d in st["mods"] and not any(o.startswith(d + ".") for o in st["mods"]) for d in mm["imports"]))
+        holder = rnd_m.choice(holders) if holders else None
+        if holder:
+            project.apply_edit(st, {"op": "add_missing_import", "mod": holder, "seed": 1})
         proj.sync(project.render(st), project.unlisted_paths(st))
         targets = proj.targets()
         mypyrun.seed_for(histrun.COMMON + flags, "c07").copy_to(cseq)
@@ -118,7 +125,14 @@ def eval_case(arg):
         if not done:
             project.apply_edit(st, ops[1])
         rnd = random.Random(seed)
-        for phase, state in (("after-edit", st), ("after-revert", st_before)):
+        phases = [("after-edit", st), ("after-revert", st_before)]
+        if holder and holder in st_before["mods"]:
+            flat = sorted(d for d in st_before["mods"][holder]["imports"] if "." not in d and d in st_before["mods"] and not any(o.startswith(d + ".") for o in st_before["mods"]))
+            if flat and len(st_before["mods"]) > 2:
+                st_del = copy.deepcopy(st_before)
+                if project.apply_edit(st_del, {"op": "delete_module_flat", "mod": rnd_m.choice(flat), "seed": 1}):
+                    phases.append(("after-dependency-deleted", st_del))
+        for phase, state in phases:
             proj.sync(project.render(state), project.unlisted_paths(state))
             if phase == "after-revert":
                 same = sorted(proj.files)
@@ -197,7 +211,7 @@ def run(run: Run) -> None:
 
     run.rule = (
         "(project, schedule) pairs: G2 projects with 10-18 modules (cycles, errors, blockers, missing imports) x N in {1,2,3,4,8} x schedule vector drawn by Hypothesis (per-(SCC, phase) delays 0-%d ms applied in every worker, "
-        "free-worker policy min/max/rand/default, batch policy one/all/default, reply reordering) x store fs/sqlite; parallel cold run vs sequential run with the same parser; after an edit, and again after the edit is reverted and some unchanged files are touched, warm sequential and warm parallel runs on the cache the parallel builds left vs cold. "
+        "free-worker policy min/max/rand/default, batch policy one/all/default, reply reordering) x store fs/sqlite; parallel cold run vs sequential run with the same parser; after an edit, again after the edit is reverted and some unchanged files are touched, and again after a dependency of a module that has a persistently missing import is deleted (that module is not edited), warm sequential and warm parallel runs on the cache the parallel builds left vs cold. "
         "Non-trivial: >=2 workers processed SCCs and some module's dependency was processed by a different worker (from the shim's log)." % (60 if q else 300)
     )
     run.assumptions = ["schedules are perturbed, not enumerated: 'every schedule' is sampled", "cross-file message order is not compared (streaming order is schedule dependent by design)"]
